@@ -19,10 +19,12 @@ struct Effect {
   long b = 0;        // signal ...
   int ret = 0;
   int err = 0;
+  int64_t tNs = 0;   // virtual time when the effect happened (set by the boundary)
   std::string str() const;
 };
 
 extern std::vector<Effect> effects;
+extern double killLatencySec;  // virtual time a kill(2) call takes (0 by default)
 extern bool logOpens;       // also record every file access as an "open" effect
 extern long accessCount;    // file-access points seen (fault-injection index)
 extern bool dtUnknown;      // readdir reports DT_UNKNOWN
